@@ -10,14 +10,21 @@ def literals(n, mark):
     return out
 
 
+def int_literals(n):
+    # distinct 3-digit integers without 0/1 (braille does not turn integers into words, and integers are what fractions, indices
+    # and exponents usually hold)
+    return [f"{2 + (k % 7)}{3 + ((k * 3) % 7)}{(k % 8) + 2}" for k in range(n)]
+
+
 class Builder:
-    def __init__(self, mark):
+    def __init__(self, mark, integers=False):
         self.mark = mark
         self.k = 0
         self.used = []
+        self.integers = integers
 
     def lit(self):
-        v = f"{23 + 2 * self.k}{self.mark}{(self.k % 7) + 2}"
+        v = int_literals(self.k + 1)[-1] if self.integers else f"{23 + 2 * self.k}{self.mark}{(self.k % 7) + 2}"
         self.k += 1
         self.used.append(v)
         return f"<mn>{v}</mn>"
@@ -63,8 +70,8 @@ class Builder:
     def p_mfencedlist(self, a, b, c): return f"<mfenced>{a}{b}{c}</mfenced>"
 
 
-def concretise(tree, mark="."):
-    b = Builder(mark)
+def concretise(tree, mark=".", integers=False):
+    b = Builder(mark, integers)
     body = b.build(tree)
     return f"<math>{body}</math>", b.used
 
